@@ -814,18 +814,25 @@ class SetIndex(Op):
         if not cands or len(x.columns) < 2:
             return None
         s = st()
-        return {"col": draw(s.sampled_from(cands)), "drop": draw(s.sampled_from([True, True, False]))}
+        col = draw(s.sampled_from(cands))
+        out = {"col": col, "drop": draw(s.sampled_from([True, True, False]))}
+        # sorted=True is the user's assertion that the column is already sorted: only offered when it is
+        if ins[0][1].ordered and x[col].is_monotonic_increasing and draw(s.booleans()):
+            out["sorted"] = True
+        return out
 
     @staticmethod
     def apply(side, objs, args):
         if side == "pandas":
             return objs[0].set_index(args["col"], drop=args["drop"]).sort_index(kind="stable")
+        if args.get("sorted"):
+            return objs[0].set_index(args["col"], drop=args["drop"], sorted=True)
         return objs[0].set_index(args["col"], drop=args["drop"])
 
     @staticmethod
     def flags(ins, args, out):
         x, f = ins[0]
-        return replace(f, rowset="", indexed=True, ordered=bool(x[args["col"]].is_unique), layout=False)
+        return replace(f, rowset="", indexed=True, ordered=bool(x[args["col"]].is_unique) or bool(args.get("sorted")), layout=False)
 
 
 @register("shuffle", kinds=("frame",), weight=0.8, tags={"shuffle"})
@@ -1317,6 +1324,8 @@ def precondition(opname, ins, args):
     if opname == "set_index":
         x = vals[0]
         if len(x) == 0 or x[args["col"]].isna().any():
+            return False
+        if args.get("sorted") and not (fl[0].ordered and x[args["col"]].is_monotonic_increasing):
             return False
     if opname == "merge_index":
         a, b = vals
